@@ -1,0 +1,18 @@
+//go:build verif
+
+// Contracts for package ddperror, read by the verification machinery in /verif.
+// This file contains no executable code; it is compiled only with -tags verif.
+package ddperror
+
+/*@
+// "an error-level diagnostic has been handed to a diagnostic handler"
+ghost $deliveredErr bool
+
+// TRUSTED model of calling any diagnostic handler: the diagnostic counts as delivered; a handler may be
+// the parser's wrapper (which raises the parser's errored flag) but touches no other compiler state.
+functype Handler
+  trusted
+  modifies parser.parser.errored
+  set $deliveredErr := old($deliveredErr) || p0.Level == LEVEL_ERROR
+  ensures forall p *parser.parser :: !parser.handlerTouches(recv, p) ==> p.errored == old(p.errored)
+@*/
